@@ -274,12 +274,36 @@ impl Link for ss::ValueId {
             | Value::Proj(Proj(head, field)) => {
                 let head = head.link(statics);
                 return field.target.products.iter().fold(head, |head, projection| {
-                    Rc::new(Proj(head, projection.position).into())
+                    let position = ds::ProductPosition {
+                        index: projection.position,
+                        last: projection.position + 1
+                            == StaticProduct::arity(statics, projection.product),
+                    };
+                    Rc::new(Proj(head, position).into())
                 });
             }
             | Value::Lit(lit) => lit.to_owned().into(),
         };
         Rc::new(value)
+    }
+}
+
+/// The static shape of a product receiver, as the checker classified it.
+struct StaticProduct;
+
+impl StaticProduct {
+    /// Number of static components: a product tail contributes its own components,
+    /// while a named (labelled) tail is one component however it is represented.
+    fn arity(statics: &StaticsArena, ty: ss::TypeId) -> usize {
+        match statics.normalized_at(ty) {
+            | Some(ss::Type::Prod(ss::Prod(_, tail))) => {
+                1 + match statics.normalized_at(*tail) {
+                    | Some(ss::Type::Prod(_)) => Self::arity(statics, *tail),
+                    | _ => 1,
+                }
+            }
+            | _ => 1,
+        }
     }
 }
 
